@@ -659,7 +659,7 @@ Definition step_exact (h : hist) (G : list f64) (o : op) : bool :=
   end.
 
 (* the run with its ghost: every Write's output paired with G at that moment, and whether all
-   widening steps were exact *)
+   widening steps were exact (the run is cut at the first one that is not) *)
 Fixpoint run_ghost (h : hist) (G : list f64) (ops : list op) : option (list (wout * list f64) * bool) :=
   match ops with
   | [] => Some ([], true)
@@ -667,10 +667,8 @@ Fixpoint run_ghost (h : hist) (G : list f64) (ops : list op) : option (list (wou
       match step h o with
       | None => None
       | Some (h', None) =>
-          match run_ghost h' (ghost_step h G o) r with
-          | None => None
-          | Some (l, b) => Some (l, step_exact h G o && b)
-          end
+          if step_exact h G o then run_ghost h' (ghost_step h G o) r
+          else Some ([], false)          (* stop at the first inexact widening *)
       | Some (h', Some w) =>
           match run_ghost h' G r with
           | None => None
